@@ -169,6 +169,9 @@ package types
 //@   requires !destinations.BurnShare.IsNil() && 0 <= destinations.BurnShare && destinations.BurnShare < P
 //@   requires sharesChecked(destinations.Shares, len(destinations.Shares)) && len(destinations.Shares) <= 1000000
 //@   ensures err == nil ==> destinations.BurnShare + shareSumOf(destinations, len(destinations.Shares)) < P
+//@   // acceptance witnesses at the two boundaries: a total of zero and a total one unit below 1 are accepted
+//@   reach [accepts-zero-total] err == nil && shareSum == 0
+//@   reach [accepts-just-below-one] err == nil && shareSum == P - 1
 //@   prop C20 C10
 //@ loop Destinations.CheckIfSharesSumIsBetween0And1#1
 //@   invariant 0 <= \i && \i <= len(destinations.Shares)
